@@ -421,7 +421,7 @@ func edgeDominates(from *ssa.BasicBlock, si int, b *ssa.BasicBlock) bool {
 // errNilRefinement: is value v (an error) known to be nil at block b, because
 // an "v != nil"/"v == nil" test dominates b on the nil edge?
 func knownNilAt(v ssa.Value, b *ssa.BasicBlock) bool {
-	for _, ref := range *v.Referrers() {
+	for _, ref := range refsOf(v) {
 		bin, ok := ref.(*ssa.BinOp)
 		if !ok || (bin.Op != token.NEQ && bin.Op != token.EQL) {
 			continue
@@ -454,7 +454,7 @@ func knownNilAt(v ssa.Value, b *ssa.BasicBlock) bool {
 
 // knownNonNilAt is the dual.
 func knownNonNilAt(v ssa.Value, b *ssa.BasicBlock) bool {
-	for _, ref := range *v.Referrers() {
+	for _, ref := range refsOf(v) {
 		bin, ok := ref.(*ssa.BinOp)
 		if !ok || (bin.Op != token.NEQ && bin.Op != token.EQL) {
 			continue
@@ -503,4 +503,16 @@ func errorResultIndex(sig *types.Signature) int {
 		}
 	}
 	return -1
+}
+
+// refsOf returns the referrers of v (nil-safe: constants have none).
+func refsOf(v ssa.Value) []ssa.Instruction {
+	if v == nil {
+		return nil
+	}
+	r := v.Referrers()
+	if r == nil {
+		return nil
+	}
+	return *r
 }
